@@ -57,6 +57,53 @@ def findRow (cls attr : String) : Except String ARow :=
   | some r => .ok r
   | none => .error s!"no descriptor row {cls}.{attr}"
 
+/-- a POD descriptor as reflected by the harness: {kind, attr, w, enum?:{name, stringy, members:[[n,v]…], default}} -/
+def podDescOf (j : Json) : Except String Capella.Pods.Desc := do
+  let kind ← j.getObjValAs? String "kind"
+  let attr ← j.getObjValAs? String "attr"
+  let w ← j.getObjValAs? Bool "w"
+  let k : Capella.Pods.Kind ← (match kind with
+    | "StringPOD" => pure .string | "HTMLStringPOD" => pure .html | "BoolPOD" => pure .bool | "IntPOD" => pure .int
+    | "FloatPOD" => pure .float | "DatetimePOD" => pure .datetime
+    | "EnumPOD" => do
+      let e ← j.getObjVal? "enum"
+      let ms ← (← e.getObjValAs? (Array Json) "members").toList.mapM (fun m => do
+        match (← m.getArr?).toList with
+        | [n, v] => do pure ((← n.getStr?).toList, (← v.getStr?).toList)
+        | _ => throw "enum member")
+      pure (.enum { name := (← e.getObjValAs? String "name").toList, stringy := ← e.getObjValAs? Bool "stringy", members := ms }
+        (← e.getObjValAs? String "default").toList)
+    | other => pure (.other other.toList))
+  pure { kind := k, attr := attr.toList, writable := w }
+
+def podLitOf (j : Json) : Except String PodLit := do
+  match j.getObjVal? "s" with
+  | .ok x => pure (.str (← x.getStr?))
+  | .error _ =>
+  match j.getObjVal? "b" with
+  | .ok x => pure (.bool (← x.getBool?))
+  | .error _ =>
+  match j.getObjVal? "i" with
+  | .ok x => pure (.int (← x.getInt?))
+  | .error _ =>
+  match j.getObjVal? "m" with
+  | .ok x => (match (← x.getArr?).toList with
+    | [c, n, v] => do pure (.member (← c.getStr?) (← n.getStr?) (← v.getStr?))
+    | _ => throw "member")
+  | .error _ =>
+  match j.getObjVal? "n" with
+  | .ok _ => pure .none
+  | .error _ => pure .other
+
+/-- what `helpers.repair_html` made of the values of this request: [[value, repaired | null (it raised)] …] -/
+def repairOf (j : Json) : Except String (List (List Char × Option (List Char))) := do
+  match j.getObjVal? "rep" with
+  | .error _ => pure []
+  | .ok r => (← r.getArr?).toList.mapM (fun p => do
+    match (← p.getArr?).toList with
+    | [a, b] => do pure ((← a.getStr?).toList, (optStr b).map (·.toList))
+    | _ => throw "repair pair")
+
 partial def kwOf (j : Json) : Except String (List (String × Slot × KwVal)) := do
   (← j.getArr?).toList.mapM (fun it => do
     let k ← it.getObjValAs? String "k"
@@ -67,6 +114,8 @@ partial def kwOf (j : Json) : Except String (List (String × Slot × KwVal)) := 
     | "pod" =>
       pure (k, Slot.stringPod (← it.getObjValAs? String "attr") (← it.getObjValAs? Bool "w"), KwVal.str (← it.getObjValAs? String "v"))
     | "str" => pure (k, Slot.other "str", KwVal.str (← it.getObjValAs? String "v"))
+    | "podk" =>
+      pure (k, Slot.pod (← podDescOf (← it.getObjVal? "d")) (← repairOf it), KwVal.lit (← podLitOf (← it.getObjVal? "v")))
     | "role" =>
       let row ← findRow (← it.getObjValAs? String "cls") (← it.getObjValAs? String "attr")
       let nw ← it.getObjVal? "new"
@@ -107,6 +156,9 @@ def callOf (call : Json) : Except String (Call × Option (ARow × Nat)) := do
   if m == "podset" then
     let n ← call.getObjValAs? Nat "owner"
     return (.podSet n (← call.getObjValAs? String "xml") (← call.getObjValAs? Bool "w") (← call.getObjValAs? String "v"), none)
+  if m == "podsetk" then
+    let n ← call.getObjValAs? Nat "owner"
+    return (.podSetK n (← podDescOf (← call.getObjVal? "d")) (← repairOf call) (← podLitOf (← call.getObjVal? "v")), none)
   let row ← findRow (← call.getObjValAs? String "cls") (← call.getObjValAs? String "attr")
   let owner ← call.getObjValAs? Nat "owner"
   let elems := (call.getObjValAs? (Array Nat) "elems").toOption.map (·.toList)
